@@ -12,7 +12,7 @@ import ast
 import json
 import os
 
-from pyvc.api import contract, lemma, custom, Int, Bool, Str, Opt, Rec, SeqOf, TupleOf, implies, call, mk, ih
+from pyvc.api import contract, lemma, custom, Int, Bool, Str, Opt, Rec, SeqOf, TupleOf, implies, call, mk, ih, reveal
 from contracts._common import ViolationT, PathT, path_str, py_unparse, py_walk
 from contracts._nodes import TSNode, PyNode
 from contracts import c12_core  # noqa: F401  (contracts of the core builders these sites call)
@@ -932,7 +932,7 @@ class SCFindStatelessClasses:
 import z3  # noqa: E402
 from pyvc.api import Opaque  # noqa: E402
 from pyvc.ex_call import external  # noqa: E402
-from pyvc.ty import VNode  # noqa: E402
+from pyvc.ty import VNode, VBool  # noqa: E402
 
 PP = L + "print_statements/python_analyzer.py::"
 PT = L + "print_statements/typescript_analyzer.py::"
@@ -1215,11 +1215,73 @@ class PrintIsTestFile:
                    for m in (".test.", ".spec.", "test_", "_test.", "/tests/", "/test/"))
 
 
-@contract(PP + "PythonPrintStatementAnalyzer.is_in_main_block", props=["C12"], returns=Bool, assumed=FILTER,
-          types=dict(self=PyPrintAnalyzerT, node=PyNode))
+# ---- `if __name__ == "__main__":` context (docs/print-statements-linter.md, allow_in_scripts): a print() is exempt iff SOME
+# ---- enclosing statement -- at any distance, through any other statements -- is the main guard
+_pm_depth = z3.Function("uf.parent_map_depth", ParentMapT.sort(), PyNode.sort(), z3.IntSort())
+parent_map_depth = uf("parent_map_depth", [ParentMapT, PyNode], Int)
+
+
+@external("ParentMap.__contains__")
+def _parent_map_contains(ex, args, kwargs, lineno):
+    """`node in parent_map`: the node has a recorded parent (trusted: depths in the tree are non-negative)."""
+    f = z3.Function("uf.parent_map_get", ParentMapT.sort(), PyNode.sort(), PyNode.sort())
+    ex.assume(_pm_depth(args[0].t, args[1].t) >= 0)
+    return VBool(f(args[0].t, args[1].t) != PyNode.null)
+
+
+@external("ParentMap.__getitem__")
+def _parent_map_getitem(ex, args, kwargs, lineno):
+    """parent_map[node]: KeyError unless the node has a recorded parent. Trusted tree fact about build_parent_map: the
+    map is the parent relation of a finite tree, so following it strictly decreases the node's depth."""
+    f = z3.Function("uf.parent_map_get", ParentMapT.sort(), PyNode.sort(), PyNode.sort())
+    pm, n = args[0].t, args[1].t
+    p = f(pm, n)
+    ex.maybe_raise(p != PyNode.null, "KeyError", lineno)
+    ex.ufs_used.add("parent_map: depth(parent_map[n]) < depth(n), depth >= 0 (the map is a finite tree)")
+    ex.assume(z3.And(_pm_depth(pm, n) >= 0, _pm_depth(pm, p) >= 0, _pm_depth(pm, p) < _pm_depth(pm, n)))
+    return VNode(p, PyNode)
+
+
+def is_main_guard(n):
+    """The statement `if __name__ == "__main__":` (exactly one `==` comparison of the name __name__ with that string)."""
+    return (isinstance(n, ast.If) and isinstance(n.test, ast.Compare)
+            and isinstance(n.test.left, ast.Name) and n.test.left.id == "__name__"
+            and len(n.test.ops) == 1 and isinstance(n.test.ops[0], ast.Eq) and len(n.test.comparators) == 1
+            and isinstance(n.test.comparators[0], ast.Constant) and n.test.comparators[0].value == "__main__")
+
+
+def main_guard_above(pm: ParentMapT, n: PyNode) -> Bool:
+    """SOME proper ancestor of n (following the recorded parents) is the main guard."""
+    return parent_map_get(pm, n) is not None and (
+        is_main_guard(parent_map_get(pm, n)) or main_guard_above(pm, parent_map_get(pm, n)))
+
+
+@contract(PP + "is_main_if_block", props=["C12", "C19"], types=dict(node=PyNode), returns=Bool,
+          inline=["_is_main_comparison", "_is_name_identifier", "_has_single_eq_operator", "_compares_to_main"])
+class IsMainIfBlock:
+    def requires(node):
+        return node is not None
+
+    def value(node):
+        return is_main_guard(node)
+
+
+@contract(PP + "PythonPrintStatementAnalyzer.is_in_main_block", props=["C12", "C19"], returns=Bool,
+          types=dict(self=PyPrintAnalyzerT, node=PyNode, current=PyNode, parent=PyNode))
 class PrintIsInMainBlock:
-    def ensures(result):
-        return True
+    def requires(self, node):
+        return node is not None
+
+    def ensures_true_iff_some_enclosing_statement_is_the_main_guard(self, node, result):
+        # wherever the print() is embedded inside the guarded block (C19): not only directly, not only under the
+        # nearest enclosing `if`
+        return result == main_guard_above(self.parent_map, node)
+
+    def inv0(self, node, current):
+        return current is not None and main_guard_above(self.parent_map, node) == main_guard_above(self.parent_map, current)
+
+    def var0(self, current):
+        return parent_map_depth(self.parent_map, current)
 
 
 @contract(PL + "PrintStatementRule._try_create_python_violation", props=["C12"], returns=Opt(ViolationT),
@@ -1438,3 +1500,51 @@ class CPCreateEmbeddedFilterMatch:
 
     def ensures_at_the_for_statement(for_node, result):
         return at_for(result, for_node)
+
+
+# ================================================================== DRY: the line numbers attached to tokenised lines (C12 view)
+# The contracts of the DRY tokenizer live in c03_windows.py (props C03). C12 needs one fact of them under its own name:
+# the number attached to a kept line is its index in content.split("\n") -- the same physical-line numbering that
+# FileLintContext.file_lines, the suppression scan and the Python parser (ast linenos) use. str.splitlines() would also
+# break at form feed, vertical tab, FS/GS/RS, NEL, U+2028, U+2029, which are not line ends for any of those.
+from contracts.c03_windows import track as dry_track, NumLineT as DryNumLineT  # noqa: E402
+
+DRY_PY_TOK = "src/linters/dry/python_analyzer.py::PythonDuplicateAnalyzer._tokenize_with_line_numbers"
+DRY_TS_TOK = "src/linters/dry/typescript_analyzer.py::TypeScriptDuplicateAnalyzer._tokenize_with_line_numbers"
+# a text with every character at which str.splitlines() breaks but "\n"-splitting does not, each ABOVE further code
+LINE_BOUNDARY_SAMPLE = ("alpha = 1\n\x0c\nbeta = 2\n\x0b\ngamma = 3\ns = '\x1c \x1d \x1e'\ndelta = 4\n# nel \x85 here\n"
+                        "epsilon = 5\nt = '\u2028 \u2029'\nzeta = 6\r\neta = 7\n")
+
+
+@contract(DRY_PY_TOK + "~lines", props=["C12"],
+          types=dict(content=Str, docstring_lines=SeqOf(Int), lines_with_numbers=SeqOf(DryNumLineT), in_multiline_import=Bool,
+                     non_docstring_lines=SeqOf(DryNumLineT), line_num=Int, line=Str, normalized=Opt(Str)),
+          returns=SeqOf(DryNumLineT))
+class DryPyTokenizeLineNumbers:
+    def ensures_numbers_are_indices_of_the_newline_separated_lines(content, docstring_lines, result):
+        return result == dry_track([(line_num, line) for line_num, line in enumerate(content.split("\n"), start=1)
+                                    if line_num not in docstring_lines], False)
+
+    def witness_numbers_are_indices_of_the_newline_separated_lines():
+        return {"self": {}, "content": LINE_BOUNDARY_SAMPLE, "docstring_lines": []}
+
+    def inv0(non_docstring_lines, lines_with_numbers, in_multiline_import, rest):
+        return reveal(dry_track, rest, in_multiline_import) and \
+            dry_track(non_docstring_lines, False) == lines_with_numbers + dry_track(rest, in_multiline_import)
+
+
+@contract(DRY_TS_TOK + "~lines", props=["C12"],
+          types=dict(content=Str, jsdoc_lines=SeqOf(Int), lines_with_numbers=SeqOf(DryNumLineT), in_multiline_import=Bool,
+                     non_jsdoc_lines=SeqOf(DryNumLineT), line_num=Int, line=Str, normalized=Opt(Str)),
+          returns=SeqOf(DryNumLineT))
+class DryTsTokenizeLineNumbers:
+    def ensures_numbers_are_indices_of_the_newline_separated_lines(content, jsdoc_lines, result):
+        return result == dry_track([(line_num, line) for line_num, line in enumerate(content.split("\n"), start=1)
+                                    if line_num not in jsdoc_lines], False)
+
+    def witness_numbers_are_indices_of_the_newline_separated_lines():
+        return {"self": {}, "content": LINE_BOUNDARY_SAMPLE, "jsdoc_lines": []}
+
+    def inv0(non_jsdoc_lines, lines_with_numbers, in_multiline_import, rest):
+        return reveal(dry_track, rest, in_multiline_import) and \
+            dry_track(non_jsdoc_lines, False) == lines_with_numbers + dry_track(rest, in_multiline_import)
